@@ -19,14 +19,13 @@
 (*        accepted expressible value survives Write -> Read                *)
 (*   utf  the three-byte UTF-8 predicate of the token heuristic            *)
 (***************************************************************************)
-EXTENDS Integers, Sequences, FiniteSets, TLC, SequencesExt, Json, WireBase
+EXTENDS Integers, Sequences, FiniteSets, TLC, SequencesExt, Json, WireBase, WireTab
 
 CONSTANTS Tier,       \* "quick" | "thorough" (both exported) | "deep" | "full6" | "full7" | "utf" (model only)
           Export,     \* BOOLEAN: print the exported subset as vectors
           Fams        \* subset of {"hf", "hb", "rt", "short6", "short7", "cor6", "cor7", "heur6", "comp6", "comp7", "max6", "max7", "close"}: the families of this run
 
-W6 == INSTANCE Wire
-W7 == INSTANCE Wire7
+\* W6 == INSTANCE Wire, W7 == INSTANCE Wire7 and the header dispatch Pack / Unpack come from WireTab
 
 VARIABLES fam, cas
 vars == <<fam, cas>>
@@ -114,14 +113,6 @@ Ops(v, hk) ==   \* the header operators of a version / header kind
     [] v = 7 /\ hk = "ch" -> [n |-> 2]
     [] v = 7 /\ hk = "chv" -> [n |-> 3]
 
-Pack(v, hk, h) ==
-  CASE v = 6 /\ hk = "ph" -> W6!PackPH(h) [] v = 6 /\ hk = "ch" -> W6!PackCH(h) [] v = 6 /\ hk = "chv" -> W6!PackCHV(h)
-    [] v = 7 /\ hk = "ph" -> W7!PackPH(h) [] v = 7 /\ hk = "phc" -> W7!PackPHC(h)
-    [] v = 7 /\ hk = "ch" -> W7!PackCH(h) [] v = 7 /\ hk = "chv" -> W7!PackCHV(h)
-Unpack(v, hk, b) ==
-  CASE v = 6 /\ hk = "ph" -> W6!UnpackPH(b) [] v = 6 /\ hk = "ch" -> W6!UnpackCH(b) [] v = 6 /\ hk = "chv" -> W6!UnpackCHV(b)
-    [] v = 7 /\ hk = "ph" -> W7!UnpackPH(b) [] v = 7 /\ hk = "phc" -> W7!UnpackPHC(b)
-    [] v = 7 /\ hk = "ch" -> W7!UnpackCH(b) [] v = 7 /\ hk = "chv" -> W7!UnpackCHV(b)
 InRange(v, hk, h) ==
   CASE v = 6 /\ hk = "ph" -> W6!PHInRange(h) [] v = 6 /\ hk = "ch" -> W6!CHInRange(h) [] v = 6 /\ hk = "chv" -> W6!CHVInRange(h)
     [] v = 7 /\ hk = "ph" -> W7!PHInRange(h) [] v = 7 /\ hk = "phc" -> W7!PHCInRange(h)
@@ -141,6 +132,8 @@ LawHF(x) ==
      /\ Len(b) = Ops(x.v, x.hk).n /\ IsBytes(b)
      /\ Canon(x.v, x.hk, b)
      /\ u.h = x.h /\ u.w = {}
+     \* the exported class table says the same as the operators (WireTab)
+     /\ TabLaw(x.v, x.hk, "hf", SfxOfH(x.v, x.hk, x.h), TupleOfH(x.hk, x.h))
 
 LawHB(x) ==
   LET u == Unpack(x.v, x.hk, x.b)
@@ -149,6 +142,23 @@ LawHB(x) ==
      /\ (b2 = x.b) <=> Canon(x.v, x.hk, x.b)                    \* re-pack is the identity exactly on canonical patterns
      /\ (u.w = {}) <=> (Canon(x.v, x.hk, x.b) \/ Silent(x.v, x.hk, x.b))
      /\ Unpack(x.v, x.hk, b2).h = u.h /\ Canon(x.v, x.hk, b2)    \* Pack normalises
+     /\ TabLaw(x.v, x.hk, "hb", Drop(x.b, NSweep(x.hk)), Take(x.b, NSweep(x.hk)))
+
+\* The header laws in bulk: one TLC state per value a of the coordinate with the largest domain of a class
+\* table's space, the law of every tuple of the slice evaluated inside (all 2^24 byte patterns of the
+\* three-byte headers, all 2^16 of the two-byte ones, every in-range field tuple).  Family "bulk" of the
+\* exported tiers: the small spaces (headers of at most two swept coordinates) completely; tier "bulk":
+\* every table, the (table, a) pairs with a % SliceHi = SliceLo (parallel processes).
+BulkLaw(tab, a) ==
+  ForSlice(tab, a, LAMBDA x :
+    IF tab.mode = "hb" THEN LawHB([k |-> "hb", v |-> tab.v, hk |-> tab.hk, b |-> x \o tab.sfx])
+    ELSE LawHF([k |-> "hf", v |-> tab.v, hk |-> tab.hk, h |-> HOf(tab.v, tab.hk, x, tab.sfx)]))
+BulkSize(tab) == FoldLeft(LAMBDA acc, k : acc * tab.dom[k], 1, Iota(Len(tab.dom))) \div tab.dom[SliceCoord(tab)]
+InitBulk == \E j \in 1..Len(AllTables) : \E a \in 0..(AllTables[j].dom[SliceCoord(AllTables[j])] - 1) :
+              a % SliceHi = SliceLo /\ Mk([k |-> "bulk", ti |-> j, a |-> a])
+InitBulkSmall == \E j \in 1..Len(AllTables) : \E a \in 0..(AllTables[j].dom[SliceCoord(AllTables[j])] - 1) :
+                   Len(AllTables[j].dom) < 3 /\ Mk([k |-> "bulk", ti |-> j, a |-> a])
+InitTabExp == \E j \in 1..Len(AllTables) : Mk([k |-> "tabexp", ti |-> j])
 
 ---------------------------------------------------------------------------
 \* packet families
@@ -162,9 +172,10 @@ CData7 == CData6 \cup {Rep(48, 0), Rep(64, 3)}
 ChunkS(CD) == {[vital |-> FALSE, seq |-> 0, resend |-> FALSE, data |-> dd] : dd \in CD}
               \cup {[vital |-> TRUE, seq |-> q, resend |-> rs, data |-> dd] :
                       q \in {0, 64, 255, 256, 1023}, rs \in BOOLEAN, dd \in CD}
-ChunkSmall == {[vital |-> FALSE, seq |-> 0, resend |-> FALSE, data |-> <<7>>],
-               [vital |-> TRUE, seq |-> 1023, resend |-> TRUE, data |-> Rep(20, 9)],
-               [vital |-> TRUE, seq |-> 5, resend |-> FALSE, data |-> <<>>]}
+ChunkSmall1 == [vital |-> FALSE, seq |-> 0, resend |-> FALSE, data |-> <<7>>]
+ChunkSmall2 == [vital |-> TRUE, seq |-> 1023, resend |-> TRUE, data |-> Rep(20, 9)]
+ChunkSmall3 == [vital |-> TRUE, seq |-> 5, resend |-> FALSE, data |-> <<>>]
+ChunkSmall == {ChunkSmall1, ChunkSmall2, ChunkSmall3}
 Lists(CD) == {<<>>} \cup {<<x>> : x \in ChunkS(CD)} \cup {<<x, y>> : x \in ChunkSmall, y \in ChunkSmall}
              \cup {<<x, y, y>> : x \in ChunkSmall, y \in ChunkSmall}
 
@@ -291,8 +302,8 @@ SameHint6(p, hint) ==
          r == W6!ReadWith(w.bytes, "none", D6(w.bytes))
      IN r.r = "ok" /\ r.p = p
 
-Total6(b, hint) ==
-  LET r == W6!ReadWith(b, hint, D6(b)) IN
+Total6c(b, hint, cp) ==
+  LET r == W6!ReadWith(b, hint, D6c(b, cp)) IN
   /\ r.r \in {"ok", "err"}
   /\ r.r = "err" => r.e \in ErrKinds6
   /\ r.r = "ok" =>
@@ -301,8 +312,8 @@ Total6(b, hint) ==
        /\ r.p.t = "chunks" => LET it == W6!Chunks(r.p.data, r.p.nc) IN
                               it.done /\ it.w \subseteq WarnKinds6
                               /\ \A j \in 1..Len(it.chunks) : it.chunks[j].off + it.chunks[j].len <= Len(r.p.data)
-Total7(b) ==
-  LET r == W7!ReadWith(b, D7(b)) IN
+Total7c(b, cp) ==
+  LET r == W7!ReadWith(b, D7c(b, cp)) IN
   /\ r.r \in {"ok", "err"}
   /\ r.r = "err" => r.e \in ErrKinds7
   /\ r.r = "ok" =>
@@ -312,7 +323,11 @@ Total7(b) ==
                               it.done /\ it.w \subseteq WarnKinds7
                               /\ \A j \in 1..Len(it.chunks) : it.chunks[j].off + it.chunks[j].len <= Len(r.p.data)
 
-LawRD(x) == IF x.v = 6 THEN Total6(x.bytes, x.hint) ELSE Total7(x.bytes)
+Total6(b, hint) == Total6c(b, hint, CAP)
+Total7(b) == Total7c(b, CAP)
+\* cases of the newer families carry the size of the reader's scratch buffer (cap); the others are read with CAP
+LawRD(x) == LET cp == IF "cap" \in DOMAIN x THEN x.cap ELSE CAP IN
+            IF x.v = 6 THEN Total6c(x.bytes, x.hint, cp) ELSE Total7c(x.bytes, cp)
 
 \* reduced alphabets of structurally interesting bytes
 A6first == {0, 16, 32, 64, 80, 128, 144, 20, 19, 255}      \* none, control, connless, resend, control+resend,
@@ -440,6 +455,227 @@ InitClose ==
     \/ \E h \in Hints : Mk([k |-> "rd", v |-> 6, hint |-> h, bytes |-> <<16, 0, 0, 4>> \o ReasonBytes(n) \o tl])
     \/ Mk([k |-> "rd", v |-> 7, hint |-> "none", bytes |-> <<4, 0, 0, 9, 8, 7, 6, 4>> \o ReasonBytes(n) \o tl])
 
+
+---------------------------------------------------------------------------
+\* ---- every control message with every combination of optional parts; ack jointly with flags (C05, C06)
+
+\* close reasons: printable / bytes that are not UTF-8 (NUL-free)
+ReasonOf(n, cls) == IF cls = 0 THEN ReasonBytes(n)
+                    ELSE [j \in 1..n |-> CASE j % 3 = 0 -> 255 [] j % 3 = 1 -> 254 [] OTHER -> 195]
+AckAll == T3(AckB, 0..1023, 0..1023)
+ReasonLensRT == T3({0, 1, 2, 3, 4, 5, 126, 127}, 0..127, 0..127)
+CtrlRT ==
+  {[k |-> "rt", v |-> 6, hascl |-> FALSE, cl |-> <<>>,
+    p |-> [t |-> "ctrl", ack |-> a, token |-> t, c |-> cc, reason |-> <<>>]] :
+      a \in AckAll, t \in {<<>>, <<1, 2, 3, 4>>}, cc \in {"keepalive", "connect", "connectaccept", "accept"}}
+  \cup {[k |-> "rt", v |-> 6, hascl |-> FALSE, cl |-> <<>>,
+         p |-> [t |-> "ctrl", ack |-> a, token |-> t, c |-> "close", reason |-> ReasonOf(n, cls)]] :
+           a \in {0, 1023}, t \in {<<>>, <<1, 2, 3, 4>>, <<0, 0, 0, 0>>}, n \in ReasonLensRT, cls \in {0, 1}}
+  \cup {[k |-> "rt", v |-> 7, hascl |-> FALSE, cl |-> <<>>,
+         p |-> [t |-> "ctrl", ack |-> a, token |-> t, c |-> cc, reason |-> <<>>, rt |-> <<>>]] :
+           a \in AckAll, t \in {<<1, 2, 3, 4>>, TOKEN_NONE}, cc \in {"keepalive", "accept"}}
+  \cup {[k |-> "rt", v |-> 7, hascl |-> FALSE, cl |-> <<>>,
+         p |-> [t |-> "ctrl", ack |-> a, token |-> t, c |-> cc, reason |-> <<>>, rt |-> <<9, 8, 7, 6>>]] :
+           a \in AckAll, t \in {<<1, 2, 3, 4>>, TOKEN_NONE}, cc \in {"connect", "token"}}
+  \cup {[k |-> "rt", v |-> 7, hascl |-> FALSE, cl |-> <<>>,
+         p |-> [t |-> "ctrl", ack |-> a, token |-> t, c |-> "close", reason |-> ReasonOf(n, cls), rt |-> <<>>]] :
+           a \in {0, 1023}, t \in {<<1, 2, 3, 4>>, TOKEN_NONE}, n \in ReasonLensRT, cls \in {0, 1}}
+
+\* datagrams: first byte = flag nibble (every value) + high ack bits, second byte = low ack bits: the ack
+\* jointly with the flags, in front of control bodies with / without their optional parts
+AckX == T3({0, 256, 1023}, 0..1023, 0..1023)
+CtrlBodies6 == {<<0>>, <<1>> \o TKEN \o <<1, 2, 3, 4>>, <<4, 97, 98, 0, 1, 2, 3, 4>>}
+CtrlBodies7 == {<<0>>, <<4, 97, 98, 0>>, <<5, 9, 8, 7, 6>>}
+\* every control code (also the unknown ones) x optional parts x extra payload behind the message
+Extras == {<<>>, <<0>>, <<1, 2>>}
+CtrlParts6 ==
+  {<<c>> \o x : c \in {0, 3, 5, 6}, x \in Extras}
+  \cup {<<c>> \o m \o x : c \in {1, 2}, m \in {<<>>, TKEN}, x \in Extras}
+  \cup {<<4>> \o r \o z \o x : r \in {<<>>, <<97>>, <<255, 254, 253>>, <<97, 98, 99>>}, z \in {<<>>, <<0>>}, x \in Extras}
+CtrlParts7 ==
+  {<<c>> \o x : c \in {0, 2, 3, 6}, x \in Extras}
+  \cup {<<c>> \o r \o x : c \in {1, 5}, r \in {<<>>, <<9, 8, 7>>, <<9, 8, 7, 6>>, TOKEN_NONE}, x \in Extras}
+  \cup {<<4>> \o r \o z \o x : r \in {<<>>, <<97>>, <<255, 254, 253>>}, z \in {<<>>, <<0>>}, x \in Extras}
+InitCtrlX6 ==
+  \E h \in Hints :
+    \/ \E f \in 0..15, a \in AckX, body \in (IF Quick THEN CtrlBodies6 ELSE {<<0>>, <<4, 97, 98, 0, 1, 2, 3, 4>>}) :
+         Mk([k |-> "rd", v |-> 6, hint |-> h, bytes |-> <<f * 16 + a \div 256, a % 256, 0>> \o body])
+    \/ \E a \in {0, 1023}, body \in CtrlParts6, tk \in {<<>>, <<1, 2, 3, 4>>} :
+         Mk([k |-> "rd", v |-> 6, hint |-> h, bytes |-> <<16 + a \div 256, a % 256, 0>> \o body \o tk])
+InitCtrlX7 ==
+  \/ \E f \in 0..15, a \in AckX, body \in (IF Quick THEN CtrlBodies7 ELSE {<<0>>, <<5, 9, 8, 7, 6>>}), t \in {<<1, 2, 3, 4>>} :
+       Mk([k |-> "rd", v |-> 7, hint |-> "none", bytes |-> <<f * 4 + a \div 256, a % 256, 0>> \o t \o body])
+  \/ \E a \in {0, 1023}, body \in CtrlParts7, t \in {<<1, 2, 3, 4>>, TOKEN_NONE} :
+       Mk([k |-> "rd", v |-> 7, hint |-> "none", bytes |-> <<4 + a \div 256, a % 256, 0>> \o t \o body])
+
+\* 0.7 connless packets: their own nine-byte header (flags, two version bits, token, response token):
+\* every first byte, datagram lengths on both sides of the 7-byte and the 9-byte header
+InitConnless7 ==
+  \E b1 \in T3((0..63) \cup {64, 128, 192, 255}, Byte, Byte), n \in T3({6, 7, 8, 9}, {6, 7, 8, 9, 10}, {6, 7, 8, 9, 10}), t \in T3({<<1, 2, 3, 4>>}, {<<1, 2, 3, 4>>, TOKEN_NONE}, {<<1, 2, 3, 4>>, TOKEN_NONE}) :
+    Mk([k |-> "rd", v |-> 7, hint |-> "none", bytes |-> <<b1>> \o Take(t \o <<9, 8, 7, 6, 5, 4>>, n)])
+
+\* 0.7 token requests: a Token message under the header token ffffffff must fill 519 bytes (the answer may
+\* not be larger than the request); lengths around the response token and around 519; zero / non-zero padding
+PadWith(b, L, x) == IF Len(b) >= L THEN Take(b, L) ELSE b \o Rep(L - Len(b), x)
+InitTokReq7 ==
+  \E ht \in {TOKEN_NONE, <<1, 2, 3, 4>>}, L \in {8, 11, 12, 13, 518, 519, 520, 1400, 1401},
+     pad \in {0, 7}, rt \in {<<9, 8, 7, 6>>, TOKEN_NONE}, f \in T3({4}, {4, 12}, {4, 12}) :
+    Mk([k |-> "rd", v |-> 7, hint |-> "none", bytes |-> PadWith(<<f, 0, 0>> \o ht \o <<5>> \o rt, L, pad)])
+
+---------------------------------------------------------------------------
+\* ---- Packet::write into buffers of every capacity (C05): Capacity below the datagram's length, the same
+\*      datagram from there on
+WcPkts ==
+  {x \in Pkt6 \cup Pkt7 : /\ ~x.hascl
+                           /\ (x.p.t = "ctrl" => x.p.ack = 0 /\ (x.p.c = "close" => Len(x.p.reason) \in {0, 3, 127}))
+                           /\ (x.p.t = "chunks" => x.p.nc = 1 /\ ~x.p.rr)
+                           /\ ("token" \in DOMAIN x.p => x.p.token \in {<<>>, <<1, 2, 3, 4>>, TOKEN_NONE, TKEN})
+                           /\ (x.v = 7 /\ x.p.t = "connless" => x.p.rtoken = TOKEN_NONE /\ x.p.token = TOKEN_NONE)
+                           /\ (x.v = 7 /\ x.p.t = "ctrl" /\ x.p.rt # <<>> => x.p.rt = <<1, 2, 3, 4>>)}
+  \cup {x \in Big6 \cup Big7 : Len(x.p.data) + (IF x.v = 6 THEN Len(x.p.token) ELSE 0) = (IF x.v = 6 THEN 1397 ELSE 1393)}
+ZOfX(x) == IF x.v = 6 THEN Z6(x.p) ELSE Z7(x.p)
+WriteXZ(x, z, c) == IF x.v = 6 THEN W6!WriteWith(x.p, z, c) ELSE W7!WriteWith(x.p, z, c)
+WriteX(x, c) == WriteXZ(x, ZOfX(x), c)
+CapsFor(L) == IF L <= 150 \/ (L >= 1399 /\ ~Quick) THEN 0..(L + 1)
+              ELSE {0, 1, 2, 3, 4, 6, 7, 8, 9, 10, L - 2, L - 1, L, L + 1, 1399, 1400, 1401, 2048}
+InitWC == \E x \in WcPkts : LET L == Len(WriteX(x, CAP).bytes) IN
+            \* quick: the whole capacity range for one maximum-size packet per version (incompressible content)
+            LET caps == IF Quick /\ L = 1400 /\ x.p.data[2] = 2 /\ (x.v = 7 \/ x.p.token = <<>>) THEN 0..1401 ELSE CapsFor(L) IN
+            Mk([k |-> "wc", v |-> x.v, p |-> x.p, caps |-> SetToSortSeq(caps, <)])
+LawWC(x) ==
+  LET z == ZOfX(x)
+      full == WriteXZ(x, z, CAP)
+      L == Len(full.bytes)
+  IN /\ (IF x.v = 6 THEN W6!Expressible(x.p) ELSE W7!Expressible(x.p))
+     /\ full.r = "ok" /\ L <= MAX_PACKETSIZE
+     /\ \A j \in 1..Len(x.caps) : LET c == x.caps[j] IN
+          IF c < L THEN WriteXZ(x, z, c) = [r |-> "err", e |-> "Capacity"] ELSE WriteXZ(x, z, c) = full
+
+---------------------------------------------------------------------------
+\* ---- the compression choice (C05): compress iff the codec's output fits the writer's 2048-byte buffer and
+\*      is STRICTLY shorter than its input (0.6: chunk area + token, 0.7: chunk area); a tie is sent uncompressed.
+\*      With the toy codec: n equal bytes give 2 bytes; tie = "lt" | "eq" | "gt" is Len(z) against Len(input).
+TieData == {<<"gt", <<5>>>>, <<"eq", <<5, 5>>>>, <<"lt", <<5, 5, 5>>>>, <<"eq", <<5, 5, 6, 6>>>>, <<"lt", <<5, 5, 6, 6, 6>>>>,
+            <<"gt", <<5, 5, 6, 7>>>>}
+TieRT ==
+  {[k |-> "rt", v |-> 6, hascl |-> FALSE, cl |-> <<>>, tie |-> d[1],
+    p |-> [t |-> "chunks", ack |-> 7, token |-> <<>>, rr |-> FALSE, nc |-> 1, data |-> d[2]]] : d \in TieData}
+  \cup {[k |-> "rt", v |-> 6, hascl |-> FALSE, cl |-> <<>>, tie |-> d[1],
+         p |-> [t |-> "chunks", ack |-> 7, token |-> <<1, 2, 3, 4>>, rr |-> FALSE, nc |-> 1, data |-> d[2]]] :
+           d \in {<<"gt", Rep(5, 0)>>, <<"eq", Rep(6, 0)>>, <<"lt", Rep(7, 0)>>}}
+  \cup {[k |-> "rt", v |-> 7, hascl |-> FALSE, cl |-> <<>>, tie |-> d[1],
+         p |-> [t |-> "chunks", ack |-> 7, token |-> <<1, 2, 3, 4>>, rr |-> FALSE, nc |-> 1, data |-> d[2]]] : d \in TieData}
+LawTie(x) ==
+  LET z == ZOfX(x)
+      n == IF x.v = 6 THEN Len(W6!ZInput(x.p)) ELSE Len(W7!ZInput(x.p))
+      w == WriteX(x, CAP)
+      flagged == IF x.v = 6 THEN W6!NeedsDecompression(w.bytes) ELSE W7!NeedsDecompression(w.bytes)
+  IN /\ z.ok
+     /\ x.tie = (IF Len(z.data) < n THEN "lt" ELSE IF Len(z.data) = n THEN "eq" ELSE "gt")
+     /\ flagged <=> x.tie = "lt"
+
+\* compressed packets whose decompressed size is exactly at / one under / one over the body limit, for every
+\* packet kind that can carry the compression flag, with the reader's scratch buffer at its documented
+\* minimum, one more, and generous (the decoder then hits its capacity / the reader's own length check)
+LimBody(v, kind, n) ==
+  CASE kind = 1 -> LET PCH(h) == IF v = 6 THEN W6!PackCH(h) ELSE W7!PackCH(h) IN       \* two chunks filling n bytes
+                   PCH([flags |-> 0, size |-> 1000]) \o Rep(1000, 0) \o PCH([flags |-> 0, size |-> n - 1004]) \o Rep(n - 1004, 0)
+    [] kind = 2 -> <<4>> \o Rep(n - 2, 97) \o <<0>>                                   \* close, reason far too long
+    [] kind = 3 -> <<0>> \o Rep(n - 1, 0)                                             \* keepalive + excess data
+    [] kind = 4 -> <<1>> \o TKEN \o Rep(n - 5, 0)                                     \* connect / token magic + excess
+LimCaps == {1400, 1401, 2048}
+InitCompLim6 ==
+  \E h \in Hints, cp \in LimCaps, d \in {-1, 0, 1}, kind \in 1..4 :
+    Mk([k |-> "rd", v |-> 6, hint |-> h, cap |-> cp,
+        bytes |-> <<(IF kind = 1 THEN 128 ELSE 144), 0, (IF kind = 1 THEN 2 ELSE 0)>> \o Stream(LimBody(6, kind, 1397 + d))])
+InitCompLim7 ==
+  \E cp \in LimCaps, d \in {-1, 0, 1}, kind \in 1..4 :
+    Mk([k |-> "rd", v |-> 7, hint |-> "none", cap |-> cp,
+        bytes |-> <<(IF kind = 1 THEN 16 ELSE 20), 0, (IF kind = 1 THEN 2 ELSE 0), 9, 8, 7, 6>> \o Stream(LimBody(7, kind, 1393 + d))])
+
+---------------------------------------------------------------------------
+\* ---- the chunk iterator call by call (C06): every prefix of a chunk area x every announced count;
+\*      double-field corruptions (announced count x area length; size field x vital / resend flags)
+
+ChunkLen(c) == (IF c.vital THEN 3 ELSE 2) + Len(c.data)
+Ends(cl) == [j \in 1..Len(cl) |-> FoldLeft(LAMBDA acc, i : acc + ChunkLen(cl[i]), 0, Iota(j))]
+AreaV(v, cl) == IF v = 6 THEN W6!Area(cl) ELSE W7!Area(cl)
+ChunksV(v, data, nc) == IF v = 6 THEN W6!Chunks(data, nc) ELSE W7!Chunks(data, nc)
+ItSizes(v) == T3({0, 1, 16, 63, 64}, {0, 1, 15, 16, 17, 63, 64, 65, 1023}, {0, 1, 15, 16, 17, 63, 64, 65, 255, 256, 1023})
+              \cup (IF v = 7 /\ ~Quick THEN {1024, 4095} ELSE {})
+ItSeqs == T3({0, 1023}, {0, 63, 64, 255, 256, 1023}, SeqB)
+ItData(n) == [j \in 1..n |-> (j * 7) % 256]
+ItLists(v) ==
+  {<<>>}
+  \cup {<<x, y>> : x \in ChunkSmall, y \in ChunkSmall}
+  \cup {<<x, y, z>> : x \in ChunkSmall, y \in ChunkSmall, z \in (IF Quick THEN {ChunkSmall1} ELSE ChunkSmall)}
+  \cup {<<[vital |-> FALSE, seq |-> 0, resend |-> FALSE, data |-> ItData(n)]>> : n \in ItSizes(v)}
+  \cup {<<[vital |-> TRUE, seq |-> q, resend |-> rs, data |-> ItData(n)]>> : n \in ItSizes(v), q \in ItSeqs, rs \in BOOLEAN}
+\* prefixes: every length for short areas; around every boundary for long ones
+PrefixLens(cl, L) == IF L <= 80 THEN 0..L
+                     ELSE {n \in 0..L : n <= 4 \/ n >= L - 4}
+NcFor(cl) == IF Quick THEN {0, Len(cl), Len(cl) + 1} ELSE (0..(Len(cl) + 1)) \cup {255}
+InitIter(v) ==
+  \E cl \in ItLists(v) :
+    LET area == AreaV(v, cl) IN
+    \/ \E n \in PrefixLens(cl, Len(area)), nc \in NcFor(cl) :
+         Mk([k |-> "it", v |-> v, nc |-> nc, data |-> Take(area, n), hascl |-> TRUE, cl |-> cl])
+    \/ \E ex \in {<<0>>, <<64>>, <<255>>, <<0, 0>>, <<64, 0>>, <<255, 255, 255>>}, nc \in {Len(cl), Len(cl) + 1} :
+         Len(area) <= 80 /\ Mk([k |-> "it", v |-> v, nc |-> nc, data |-> area \o ex, hascl |-> FALSE, cl |-> <<>>])
+
+\* size field x vital / resend flags of one chunk header inside a valid area of two or three chunks
+SizeAlpha(true, rem, v) == {0, 1, 2, true - 1, true, true + 1, rem - 1, rem, rem + 1, 63, 64, (IF v = 6 THEN 1023 ELSE 4095)} \cap Nat
+Rehead(v, area, off, f, sz) ==
+  IF v = 6 THEN [area EXCEPT ![off + 1] = f * 64 + sz \div 16, ![off + 2] = (area[off + 2] \div 16) * 16 + (sz % 16)]
+  ELSE [area EXCEPT ![off + 1] = f * 64 + sz \div 64, ![off + 2] = (area[off + 2] \div 64) * 64 + (sz % 64)]
+CorLists == IF Quick THEN {<<ChunkSmall1, ChunkSmall2>>, <<ChunkSmall2, ChunkSmall3, ChunkSmall1>>}
+            ELSE {<<x, y>> : x \in ChunkSmall, y \in ChunkSmall} \cup {<<x, y, x>> : x \in ChunkSmall, y \in ChunkSmall}
+CorOfChunk(v, cl, j) ==
+  LET area == AreaV(v, cl)
+      e == Ends(cl)
+      off == IF j = 1 THEN 0 ELSE e[j - 1]
+      hs == IF cl[j].vital THEN 3 ELSE 2
+  IN {Rehead(v, area, off, f, sz) : f \in 0..3, sz \in SizeAlpha(Len(cl[j].data), Len(area) - off - hs, v)}
+SizeFlagCor(v) == UNION {UNION {CorOfChunk(v, cl, j) : j \in 1..Len(cl)} : cl \in CorLists}
+InitIterCor(v) == \E d \in SizeFlagCor(v), nc \in {2, 3} : Mk([k |-> "it", v |-> v, nc |-> nc, data |-> d, hascl |-> FALSE, cl |-> <<>>])
+
+\* the same corruptions behind a packet header, through Packet::read (0.6: every hint -- the token heuristic
+\* walks the chunks) and the accept -> write -> re-read path
+InitNcLen(v) ==
+  \E cl \in {<<ChunkSmall1, ChunkSmall2>>, <<ChunkSmall2, ChunkSmall3, ChunkSmall1>>} :
+    LET area == AreaV(v, cl) \o <<1, 2, 3, 4>> IN
+    \E n \in 0..Len(area), nc \in NcFor(cl), h \in (IF v = 6 THEN Hints ELSE {"none"}) :
+      Mk([k |-> "rd", v |-> v, hint |-> h,
+          bytes |-> (IF v = 6 THEN <<0, 0, nc>> ELSE <<0, 0, nc, 9, 8, 7, 6>>) \o Take(area, n)])
+InitSizeFlag(v) ==
+  \E d \in SizeFlagCor(v), nc \in T3({2}, {2, 3}, {2, 3}), tk \in {<<>>, <<1, 2, 3, 4>>}, h \in (IF v = 6 THEN Hints ELSE {"none"}) :
+    (v = 7 => tk = <<>>)
+    /\ Mk([k |-> "rd", v |-> v, hint |-> h, bytes |-> (IF v = 6 THEN <<0, 0, nc>> ELSE <<0, 0, nc, 9, 8, 7, 6>>) \o d \o tk])
+
+PrefixLaw(x, it) ==
+  LET n == Len(x.data)
+      e == Ends(x.cl)
+      kk == Cardinality({j \in 1..Len(x.cl) : e[j] <= n})
+      boundary == n = 0 \/ \E j \in 1..Len(x.cl) : e[j] = n
+  IN /\ Len(it.chunks) = kk
+     /\ SameChunks([it EXCEPT !.w = {}], x.data, SubSeq(x.cl, 1, kk))    \* exactly the chunks that lie wholly inside
+     /\ \A j \in 1..kk : it.cw[j] = {}                                    \* written headers are canonical
+     /\ it.excess <=> ~boundary                                          \* ChunksUnknownData iff a chunk is cut
+     /\ ("ChunksNumChunks" \in it.endw) <=> (boundary /\ kk # x.nc)
+     /\ ("ChunksNumChunks" \in IterAfterW(it, x.nc, 1)) <=> (~boundary /\ kk # x.nc)
+LawIT(x) ==
+  LET it == ChunksV(x.v, x.data, x.nc)
+      WK == IF x.v = 6 THEN WarnKinds6 ELSE WarnKinds7
+  IN /\ it.done
+     /\ Len(it.cw) = Len(it.chunks)
+     /\ it.w \subseteq WK
+     /\ ("ChunksUnknownData" \in it.w) <=> it.excess
+     /\ \A j \in 1..Len(it.chunks) :
+          /\ it.chunks[j].off + it.chunks[j].len <= Len(x.data)           \* inside the area
+          /\ it.chunks[j].off >= IterPosBefore(it, j) + 2                \* every call consumes at least a header
+          /\ IterLenBefore(it, j) = Len(it.chunks) - j + 1
+     /\ x.hascl => PrefixLaw(x, it)
+
 ---------------------------------------------------------------------------
 \* the UTF-8 predicate: the code's comment counts 2650112 valid three-byte strings
 Utf8Count(u) ==
@@ -452,6 +688,8 @@ Init ==
   CASE Tier = "full6" -> InitFull6
     [] Tier = "full7" -> InitFull7
     [] Tier = "utf" -> Mk([k |-> "utf"])
+    [] Tier = "bulk" -> InitBulk
+    [] Tier = "tab" -> InitTabExp
     [] OTHER -> \/ "hf" \in Fams /\ InitHF
                 \/ "hb" \in Fams /\ InitHB
                 \/ "rt" \in Fams /\ \E x \in Pkt6 \cup Pkt7 \cup Big6 \cup Big7 : \E rc \in RCaps(x) :
@@ -466,6 +704,21 @@ Init ==
                 \/ "max6" \in Fams /\ InitMax6
                 \/ "max7" \in Fams /\ InitMax7
                 \/ "close" \in Fams /\ InitClose
+                \/ "ctrl" \in Fams /\ \E x \in CtrlRT : Mk(x @@ [rcap |-> 1400])
+                \/ "tie" \in Fams /\ \E x \in TieRT : \E rc \in {1400, 2048} : Mk(x @@ [rcap |-> rc])
+                \/ "wc" \in Fams /\ InitWC
+                \/ "ctrlx6" \in Fams /\ InitCtrlX6
+                \/ "ctrlx7" \in Fams /\ InitCtrlX7
+                \/ "connless7" \in Fams /\ InitConnless7
+                \/ "tokreq7" \in Fams /\ InitTokReq7
+                \/ "complim6" \in Fams /\ InitCompLim6
+                \/ "complim7" \in Fams /\ InitCompLim7
+                \/ "iter6" \in Fams /\ (InitIter(6) \/ InitIterCor(6))
+                \/ "iter7" \in Fams /\ (InitIter(7) \/ InitIterCor(7))
+                \/ "ncx6" \in Fams /\ (InitNcLen(6) \/ InitSizeFlag(6))
+                \/ "ncx7" \in Fams /\ (InitNcLen(7) \/ InitSizeFlag(7))
+                \/ "bulk" \in Fams /\ InitBulkSmall
+                \/ "tab" \in Fams /\ InitTabExp
 Next == UNCHANGED vars
 
 \* exported subset: everything except the widest byte sweeps, which are thinned
@@ -477,10 +730,15 @@ Exported(x) ==
 Law ==
   /\ CASE fam = "hf" -> LawHF(cas)
        [] fam = "hb" -> LawHB(cas)
-       [] fam = "rt" -> LawRT(cas)
+       [] fam = "rt" -> LawRT(cas) /\ ("tie" \in DOMAIN cas => LawTie(cas))
+       [] fam = "wc" -> LawWC(cas)
+       [] fam = "it" -> LawIT(cas)
        [] fam = "rd" -> LawRD(cas)
        [] fam = "utf" -> Utf8Count(0) = 2650112 /\ CompressedSome6 /\ CompressedSome7 /\ ExpandsSome
-  /\ (Export /\ fam # "utf" /\ Exported(cas)) => PrintT(<<"V", ToJson(cas)>>)
+       [] fam = "bulk" -> /\ BulkLaw(AllTables[cas.ti], cas.a)
+                          /\ PrintT(<<"BULK", AllTables[cas.ti].id, cas.a, BulkSize(AllTables[cas.ti])>>)
+       [] fam = "tabexp" -> PrintT(<<"TAB", ToJson(AllTables[cas.ti])>>)
+  /\ (Export /\ fam \notin {"utf", "bulk", "tabexp"} /\ Exported(cas)) => PrintT(<<"V", ToJson(cas)>>)
 
 
 =============================================================================
